@@ -43,7 +43,7 @@ func Run(c *lg.Chunk, lines lg.Lines, args []Value, o Options) (res Result) {
 		o.Chunk = "chunk"
 	}
 	it := &Interp{G: NewTable(), lines: lines, chunk: o.Chunk, N: &Namer{ids: map[interface{}]int{}}, fuel: o.Fuel,
-		labels: map[*lg.Block]map[string]int{}, MaxTrace: o.MaxTrace, Features: map[string]int{}, hostFuncs: map[string]*Builtin{}}
+		labels: map[*lg.Block]map[string]int{}, done: make(chan struct{}), MaxTrace: o.MaxTrace, Features: map[string]int{}, hostFuncs: map[string]*Builtin{}}
 	it.setupGlobals()
 	if o.Setup != nil {
 		o.Setup(it)
